@@ -103,6 +103,7 @@ package fs
 // is escaped. For a pattern without + . * the translation is just the anchors plus that substitution.
 //@ func toRegexString
 //@   modifies nothing
+//@   callsite strings.Replace every_occurrence_is_rewritten [C21]: arg_n < 0
 //   (bounded stand-ins: chains of str.replace_all are not decided by any installed solver within budget, so
 //    these two clauses are executed against the real function on an enumerated input space instead)
 //@   ensures question_mark [C21 bounded]: !contains(pattern, "+") && !contains(pattern, ".") && !contains(pattern, "*") && !contains(pattern, "(") && !contains(pattern, ")") && !contains(pattern, "$") && !contains(pattern, "|") && !contains(pattern, "{") && !contains(pattern, "}") ==> \
